@@ -46,6 +46,8 @@ def _expand_key(defs, k: ast.AST) -> List[ast.AST]:
         for e in k.elts:
             out += _expand_key(defs, e)
         return out
+    if isinstance(k, ast.BinOp) and isinstance(k.op, ast.Add):  # tuple concatenation
+        return _expand_key(defs, k.left) + _expand_key(defs, k.right)
     return [k]
 
 
